@@ -486,16 +486,45 @@ End Scan.
 (* ---- the ${key:default} resolver ------------------------------------------------------ *)
 From IocVerif Require Import Proofs.StrconvProofs.
 
-Definition render_value (v : cval) : res bytes :=
-  match v with VNull => Ok [] | _ => format_any v end.
+(* what is spliced for a value: nothing for nil, otherwise its text in the variant [fx] of the callback *)
+Definition render_value (fx : bool) (v : cval) : res bytes :=
+  match v with VNull => Ok [] | _ => format_cfg fx v end.
+
+Lemma format_cfg_unrepaired : forall v, format_cfg false v = format_any v.
+Proof. intros v. destruct v; reflexivity. Qed.
+
+(* the repaired callback differs from FormatAny on float64 values only *)
+Lemma format_cfg_not_float : forall fx v, (forall m e, v <> VDec m e) -> format_cfg fx v = format_any v.
+Proof. intros fx v H. destruct v; try reflexivity. exfalso. exact (H m e eq_refl). Qed.
+
+Lemma format_cfg_float : forall m e, format_cfg true (VDec m e) = Ok (fmt_float_f m e).
+Proof. reflexivity. Qed.
+
+(* the unrepaired callback (fx = false) splices FormatAny's text for every value *)
+Lemma resolve_unrepaired : forall cfg exp,
+  resolve false cfg exp =
+  (let (key, dflt) := split_first b_colon exp in
+   let v := cfg key in
+   rbind (if absent v then
+            match dflt with
+            | Some (c :: d) => parse_any (c :: d)
+            | _ => Ok v
+            end
+          else Ok v)
+         (fun v' => match v' with VNull => Ok [] | _ => format_any v' end)).
+Proof.
+  intros cfg exp. unfold resolve. destruct (split_first b_colon exp) as [key dflt]. cbv zeta.
+  match goal with |- rbind ?x _ = rbind ?x _ => destruct x as [v'| |]; try reflexivity end.
+  cbn [rbind]. destruct v'; reflexivity.
+Qed.
 
 (* key present (not nil / empty map / empty list): the configured value, default or not *)
-Lemma resolve_present : forall cfg key rest,
+Lemma resolve_present : forall fx cfg key rest,
   byte_index b_colon key = None -> rest = [] \/ (exists d, rest = b_colon :: d) ->
   absent (cfg key) = false ->
-  resolve cfg (key ++ rest) = format_any (cfg key).
+  resolve fx cfg (key ++ rest) = format_cfg fx (cfg key).
 Proof.
-  intros cfg key rest Hk Hrest Habs. unfold resolve.
+  intros fx cfg key rest Hk Hrest Habs. unfold resolve.
   assert (Hsp : exists o, split_first b_colon (key ++ rest) = (key, o)).
   { destruct Hrest as [-> | [d ->]].
     - rewrite app_nil_r. eexists. apply split_first_none, Hk.
@@ -504,29 +533,39 @@ Proof.
   destruct (cfg key); try reflexivity. discriminate.
 Qed.
 
-(* key absent and a non-empty default: the default, through ParseAny / FormatAny *)
-Lemma resolve_default : forall cfg key d,
+(* key absent and a non-empty default: the default, through ParseAny and the callback's formatting *)
+Lemma resolve_default : forall fx cfg key d,
   byte_index b_colon key = None -> d <> [] -> absent (cfg key) = true ->
-  resolve cfg (key ++ b_colon :: d) = rbind (parse_any d) render_value.
+  resolve fx cfg (key ++ b_colon :: d) = rbind (parse_any d) (render_value fx).
 Proof.
-  intros cfg key d Hk Hd Habs. unfold resolve. rewrite (split_first_app _ _ _ Hk), Habs.
+  intros fx cfg key d Hk Hd Habs. unfold resolve. rewrite (split_first_app _ _ _ Hk), Habs.
   destruct d as [|c d]; [congruence|]. reflexivity.
 Qed.
 
 (* ... which is the default text itself when that text is plain *)
-Lemma resolve_default_plain : forall cfg key d,
+Lemma resolve_default_plain : forall fx cfg key d,
   byte_index b_colon key = None -> d <> [] -> absent (cfg key) = true -> plain d = true ->
-  resolve cfg (key ++ b_colon :: d) = Ok d.
+  resolve fx cfg (key ++ b_colon :: d) = Ok d.
 Proof.
-  intros cfg key d Hk Hd Habs Hp. rewrite (resolve_default cfg key d Hk Hd Habs), (plain_parse d Hp). reflexivity.
+  intros fx cfg key d Hk Hd Habs Hp. rewrite (resolve_default fx cfg key d Hk Hd Habs), (plain_parse d Hp). reflexivity.
 Qed.
 
 (* key absent, no default or an empty one: nothing for nil, the (empty) value otherwise *)
-Lemma resolve_nodefault : forall cfg key rest,
+Lemma resolve_nodefault : forall fx cfg key rest,
   byte_index b_colon key = None -> rest = [] \/ rest = [b_colon] -> absent (cfg key) = true ->
-  resolve cfg (key ++ rest) = render_value (cfg key).
+  resolve fx cfg (key ++ rest) = render_value fx (cfg key).
 Proof.
-  intros cfg key rest Hk Hrest Habs. unfold resolve. destruct Hrest as [-> | ->].
+  intros fx cfg key rest Hk Hrest Habs. unfold resolve. destruct Hrest as [-> | ->].
   - rewrite app_nil_r, (split_first_none _ _ Hk), Habs. reflexivity.
   - rewrite (split_first_app _ _ _ Hk), Habs. reflexivity.
+Qed.
+
+(* a present float64: FormatAny's %v text before the repair, plain digits after it *)
+Lemma resolve_float : forall fx cfg key m e,
+  byte_index b_colon key = None -> cfg key = VDec m e ->
+  resolve fx cfg key = Ok (if fx then fmt_float_f m e else fmt_float_v m e).
+Proof.
+  intros fx cfg key m e Hk Hv.
+  rewrite <- (app_nil_r key), (resolve_present fx cfg key [] Hk (or_introl eq_refl)); rewrite Hv; [|reflexivity].
+  destruct fx; reflexivity.
 Qed.
